@@ -36,6 +36,9 @@ pub struct CaseOut {
     pub extra_evaluations: u64,
     /// extra distinct non-trivial keys contributed by cases that have no schedule dimension
     pub extra_nontrivial: Vec<u64>,
+    /// the family counts non-trivial executions itself (through `extra_nontrivial`): the
+    /// driver's default rule is not applied on top
+    pub own_nontrivial_rule: bool,
     /// hash of the case's observable outcome (cross-build comparison, C05)
     pub outcome_hash: Option<u64>,
 }
@@ -186,7 +189,7 @@ pub fn worker(
                 }
                 let fault_ok = !b.faulty
                     || i.faults.bad_key + i.faults.transient + i.faults.short + i.faults.long + i.faults.hostile > 0;
-                if i.regions_multi > 0 && i.context_switches > 0 && fault_ok {
+                if !co.own_nontrivial_rule && i.regions_multi > 0 && i.context_switches > 0 && fault_ok {
                     nontrivial.insert(mix2(mix2(co.shape_hash, i.order_hash), i.event_hash));
                 }
             }
@@ -644,4 +647,18 @@ fn gcd(a: u64, b: u64) -> u64 {
     } else {
         gcd(b, a % b)
     }
+}
+
+/// `essim outcomes <PROP> <batch> <n>`: one line per case with the hash of its observable
+/// outcome — compared between build configurations (C05: checked, wrapping, dev).
+pub fn outcomes(fam: &Family, prop: &str, batch: &str, n: u64, stride: u64) -> i32 {
+    let seed = verif_seed();
+    for case in (0..n).map(|i| i * stride.max(1)) {
+        let rs = case_seed(seed, prop, batch, case);
+        crate::c06::CASE_INDEX.with(|c| c.set(case));
+        let co = (fam.run_case)(prop, batch, rs);
+        let f: Vec<&str> = co.findings.iter().map(|(f, _)| f.class.as_str()).collect();
+        println!("{case} {:016x} {}", co.outcome_hash.unwrap_or(0), f.join(","));
+    }
+    0
 }
